@@ -65,3 +65,20 @@ func ref_SkipThenCaseOff(dst *Dst, src *Src) {
 	dst.Meta.Inner = src.Meta.Inner
 	dst.Meta.P = src.Meta.P
 }
+
+func ref_GetterMember(src *SrcG) *DstG {
+	dst := &DstG{ID: src.ID}
+	dst.Info.Tags = src.meta.Tags
+	dst.Info.Tags.A = "lit"
+	dst.Info.Inner = src.meta.Inner
+	dst.Info.P = src.meta.P
+	return dst
+}
+
+func ref_GetterMemberArg(dst *DstG, src *SrcG) {
+	dst.ID = src.ID
+	dst.Info.Note = src.meta.Note
+	dst.Info.Tags = src.meta.Tags
+	dst.Info.Inner.K = src.meta.Inner.K
+	dst.Info.P = src.meta.P
+}
